@@ -6,9 +6,9 @@ runs; monotonicity of the connection table along runs.
 -/
 namespace Tars.ServerConn
 
-theorem ginv_ciBegin {cfg : Cfg} {s : State} (hI : GInv cfg s) (hs : s.spc = .polling) :
+theorem ginv_ciBegin {cfg : Cfg} {s : State} {b : Bool} (hI : GInv cfg s) (hs : s.spc = .polling) :
     GInv cfg { s with pass := some { todo := registeredIds s, all := true, holding := none },
-                      lastPass := registeredIds s } := by
+                      lastPass := registeredIds s, firstPoll := true, fpNotified := b } := by
   refine ⟨hI.conns, hI.safe, ?_, ?_, ?_, ?_, hI.poolInv⟩
   · intro _ p h
     simp at h; subst h; rfl
@@ -36,7 +36,7 @@ theorem ginv_step {cfg : Cfg} {s s' : State} (a : Action) (hI : GInv cfg s)
   | register c => exact ginv_updConn good_cRegister (Or.inl stay_cRegister) hI h
   | stamp c => exact ginv_updConn good_cStamp (Or.inl stay_cStamp) hI h
   | read c n => exact ginv_updConn (good_cRead n) (Or.inl (stay_cRead n)) hI h
-  | readErr c f => exact ginv_updConn (good_cReadErr _ f) (Or.inl (stay_cReadErr _ f)) hI h
+  | readErr c f => exact ginv_updConn (good_cReadErr _ _ f) (Or.inl (stay_cReadErr _ _ f)) hI h
   | age c => exact ginv_updConn good_cAge (Or.inl stay_cAge) hI h
   | dispatch c => exact ginv_updConn (good_cDispatch _) (Or.inl (stay_cDispatch _)) hI h
   | enqueue c =>
@@ -94,6 +94,11 @@ theorem ginv_step {cfg : Cfg} {s s' : State} (a : Action) (hI : GInv cfg s)
   | write c i => exact ginv_updConn (good_cWrite i) (Or.inl (stay_cWrite i)) hI h
   | skip c i => exact ginv_updConn (good_cSkip _ i) (Or.inl (stay_cSkip _ i)) hI h
   | dec c i => exact ginv_updConn (good_cDec i) (Or.inl (stay_cDec i)) hI h
+  | drainTick c =>
+    simp only [step] at h
+    split at h <;> try contradiction
+    split at h <;> try contradiction
+    exact ginv_updConn good_cDrainTick (Or.inl stay_cDrainTick) hI h
   | drainClose c => exact ginv_updConn good_cDrainClose (Or.inl stay_cDrainClose) hI h
   | shutdownCall =>
     simp only [step] at h
